@@ -335,11 +335,15 @@ func RunC16(tier string) int {
 			{Name: "pack(deref)", Nodes: trees["deref"], Deref: true, Ignore: true},
 			{Name: "unpack", Unpack: true},
 			{Name: "pack(links)", Nodes: trees["links"]},
+			// a relative source from a working directory that $PWD names by way of the link sw (-> src) ...
+			{Name: "pack(., $PWD through sw->src)", Nodes: append(append([]TNode{}, trees["plain"]...), TNode{Path: "sw", Kind: "link", Target: "src"}), Src: ".", Cwd: "src", PWD: "sw"},
 		}
 		probes := []PackStep{
 			{Nodes: trees["plain"]}, {Nodes: trees["plain"], Ignore: true}, {Nodes: trees["rules"], Ignore: true}, {Nodes: trees["git"], Ignore: true}, {Nodes: trees["git"], Legacy: true},
 			{Nodes: trees["neg"], Ignore: true}, {Nodes: trees["locked"], Ignore: true}, {Nodes: trees["deref"], Ignore: true, Deref: true}, {Nodes: trees["links"], Ignore: true},
 			{Nodes: append(append([]TNode{}, trees["rules"]...), TNode{Path: "src/.terraformignore", Kind: "file", Body: "keep/\n"}), Ignore: true}, // same path, other rule file
+			// ... and the same spelling after the link was pointed somewhere else: what $PWD says is the same string, the directory is another
+			{Nodes: append(append([]TNode{}, trees["plain"]...), TNode{Path: "alt/only-in-alt", Kind: "file", Body: "ALT"}, TNode{Path: "sw", Kind: "link", Target: "alt"}), Src: ".", Cwd: "alt", PWD: "sw"},
 		}
 		depth := 2
 		if thorough {
